@@ -180,16 +180,24 @@ def oracle(ctx, widen=1):
     steps = 0
     kinds = set()
 
+    def raw(pos):
+        """the stored angles exactly as held (radians), so that a record which went through a degree / radian round trip on the way in or out
+        — equal when printed, unequal under the library's own Position.__eq__ — is seen"""
+        try:
+            return tuple(getattr(pos, "_" + a) for a in ("mu", "delta", "nu", "eta", "chi", "phi"))
+        except AttributeError:
+            return pos.astuple
+
     def full(ub, which):
         if which == "refl":
-            return [(r.h, r.k, r.l, r.pos.astuple, r.energy, r.tag) for r in ub.reflist.reflections]
-        return [(r.h, r.k, r.l, r.x, r.y, r.z, r.pos.astuple, r.tag) for r in ub.orientlist.orientations]
+            return [(r.h, r.k, r.l, raw(r.pos), r.energy, r.tag) for r in ub.reflist.reflections]
+        return [(r.h, r.k, r.l, r.x, r.y, r.z, raw(r.pos), r.tag) for r in ub.orientlist.orientations]
 
     def rec(which, i, tag):
         hkl, pos, en, xyz = payload(i)
         if which == "orient" and i % 4 == 0:
             pos = Position()            # the orientation wrappers take the position as optional; an omitted position is the all-zero one
-        return (*hkl, pos.astuple, en, tag) if which == "refl" else (*hkl, *xyz, pos.astuple, tag)
+        return (*hkl, raw(pos), en, tag) if which == "refl" else (*hkl, *xyz, raw(pos), tag)
 
     for hi in range(n):
         ops = gen_history(ctx.rng, maxlen)
